@@ -193,8 +193,8 @@ def affine_replay(ck, res, emit):
 PLANE_INV = ["LiveOK", "IterInsertionOrder", "FindSound", "FindComplete", "GridCoherent", "FindSetAgrees",
              "ImplLive", "ImplIter", "ImplFindSound", "ImplFindComplete", "ImplSameWhenNoDev"]
 PLANE_RUNS = {
-    "quick": [("SeqQuick", 5, True), ("GeoQuick", 2, False)],
-    "thorough": [("SeqFull", 6, True), ("GeoFull", 2, False)],
+    "quick": [("SeqQuick", 5, 1), ("GeoQuick", 2, 0)],          # (setups, MaxOps, MaxDup)
+    "thorough": [("SeqFull", 6, 6), ("GeoFull", 2, 0)],
 }
 
 
@@ -278,7 +278,7 @@ def classify_state(ck, r, real, mode, dev, stats):
 def plane_tlc(ck, dev, run, workers):
     (setups, maxops, dup) = run
     cfg = write_cfg(os.path.join(ck.tmp, "c20_plane_%s.cfg" % setups),
-                    constants={"Setups": "<- " + setups, "MaxOps": maxops, "DupAdds": "TRUE" if dup else "FALSE",
+                    constants={"Setups": "<- " + setups, "MaxOps": maxops, "MaxDup": dup,
                                "Dev": tla_set(dev) if dev else "<- NoDev"},
                     invariants=PLANE_INV, properties=["ObservationsPure"], constraints=["EmitState"])
     emit = os.path.join(ck.tmp, "c20_plane_%s.ndjson" % setups)
@@ -289,7 +289,7 @@ def plane_tlc(ck, dev, run, workers):
 def plane_replay(ck, dev, runs_done):
     stats = {"drift": 0, "hits": {}}
     for (setups, maxops, dup), (res, emit) in runs_done:
-        ck.add_tlc(res, "Plane: %s, histories <= %d, duplicate adds %s, Dev=%s" % (setups, maxops, dup, dev))
+        ck.add_tlc(res, "Plane: %s, histories <= %d, <= %s duplicate adds, Dev=%s" % (setups, maxops, dup, dev))
         if not res.ok:
             st = res.error_trace[-1][1] if res.error_trace else {}
             ck.violation("model:" + str(res.violated), "TLC: %s violated on the Plane specification (history %s)"
@@ -347,7 +347,7 @@ def refutations_tlc(ck, dev):
 
     def one(d):
         cfg = write_cfg(os.path.join(ck.tmp, "c20_refute_%s.cfg" % d),
-                        constants={"Setups": "<- SeqQuick", "MaxOps": 3, "DupAdds": "TRUE", "Dev": tla_set([d])},
+                        constants={"Setups": "<- SeqQuick", "MaxOps": 3, "MaxDup": 3, "Dev": tla_set([d])},
                         invariants=[strict[d]])
         return run_tlc(PLANE_SPEC, cfg, workers=2, timeout=600)
 
